@@ -247,8 +247,8 @@ def r5(ctx):
             for sent in (False, True):
                 if status is None and sent:
                     continue
-                ex = Explorer(f, frozen=["self.status"])
-                outs = ex.run(g.entry, {EXC: exc, "self.status": status, "self.headers_sent": sent}, watch={s.id: "accepted" for s in stores})
+                ex = Explorer(f, frozen=["self.status"], atom_of=lambda e: "VALID" if regex_test(repo, f, e) else None)
+                outs = ex.run(g.entry, {EXC: exc, "self.status": status, "self.headers_sent": sent, f.params[1]: "200 OK", "VALID": True}, watch={s.id: "accepted" for s in stores})
                 got = set("accepted" if "accepted" in o.events else ("raise" if o.kind == "raise" else o.kind) for o in outs)
                 if exc is None:
                     want = "accepted" if status is None else "raise"
